@@ -79,6 +79,14 @@ def run_bounded_rac(pid, racs, out, tier):
             continue
         out.cmds.append('(overlay of /repo) ' + r['cmd'])
         if r['cex']:
+            findings, _ = load_known()
+            kn = {f['obligation']: f for f in findings if f['property'] == pid}
+            if oid in kn:
+                if kn[oid] not in out.known:
+                    out.known.append(kn[oid])
+                out.bounded.append({'harness': oid, 'kind': 'bounded-rac', 'result': 'KNOWN-FINDING', 'function': it['function'], 'repo': it['attach'],
+                                    'counterexample': r['cex'][0][1][:300]})
+                continue
             out.violations.append({'obligation': oid, 'unit': 'rac', 'function': it['function'], 'repo': it['attach'],
                                    'message': 'runtime contract check failed: ' + r['cex'][0][1][:300], 'spans': [],
                                    'verifier_output': r['tail'], 'rac_counterexample': r['cex'][0][1]})
